@@ -3,7 +3,7 @@
     leaves the token stream, hence the parse, unchanged. Parentheses: a theorem for every tree and table (Lemmas/PrattParen.v):
     a rendering with the parentheses the grammar needs and ANY further parentheses around ANY subexpressions parses to the
     tree with the parentheses forgotten. *)
-From EE Require Import Chars OpTable Decimal Token Lexer Ast Parser Api Utf8 LexerSpec LexerTiling LexerWs ParserSteps Etoks PrattFull PrattParen ImplTable Names.
+From EE Require Import Chars OpTable Decimal Token Lexer Ast Parser Api Utf8 LexerSpec LexerTiling LexerWs ParserSteps Ptree Etoks PrattFull PrattParen ImplTable Names.
 Open Scope N_scope.
 
 (* tokens are separated by whitespace only, so what lies between two tokens carries no information: the tiling theorem *)
